@@ -264,6 +264,35 @@ def oracle(case, res, extra):
             return
         if "before the compilation started" not in str(r):
             res.stats["fault_rejected_late"] += 1
+        # history: the well-formed document OBJECT is compiled first, then edited in place into the faulty one and compiled again —
+        # what was verified a moment ago says nothing about the object now
+        if fi % 3 == 0:
+            from ..real import compile_routine, exc_class as _exc
+
+            for kind in ("schema-object", "plain-dict"):
+                try:
+                    good = schema(case.qref)
+                    obj = good if kind == "schema-object" else good.model_dump()
+                    compile_routine(obj)
+                    if kind == "schema-object":
+                        obj.program = sch.program
+                    else:
+                        obj.clear()
+                        obj.update(sch.model_dump())
+                except Exception:
+                    res.stats["history_setup_failed"] += 1
+                    continue
+                try:
+                    compile_routine(obj)
+                    st3, r3 = "ok", None
+                except Exception as e3:
+                    st3, r3 = _exc(e3), e3
+                res.stats["faults_after_a_successful_compile_of_the_same_object"] += 1
+                if st3 != "compilation":
+                    res.violation("failing-input", f"fault not rejected with a compilation error ({desc}) when the same {kind} was compiled successfully before being edited in place: outcome {st3}",
+                                  {"qref": d, "fault": desc, "history": f"compile(well-formed {kind}); edit in place; compile(same object)", "original_qref": case.qref},
+                                  str(r3)[:300] if st3 != "ok" else "a result", "BartiqCompilationError")
+                    return
         if len(desc.split(" at ")[-1].split(".")) >= 2 or "." in desc.split(" at ")[-1]:
             res.nontrivial.append((case.seed, "fault", desc[:60]))
         st2, r2 = try_compile(d, skip_verification=True)
